@@ -1571,6 +1571,15 @@ def _term(signum, frame):
             proc.join(2)
     except Exception:               # noqa: BLE001
         pass
+    try:
+        from mc import forkmap
+        for pid in list(forkmap.LIVE):
+            try:
+                os.kill(pid, signal.SIGKILL)
+            except OSError:
+                pass
+    except Exception:               # noqa: BLE001
+        pass
     _drop_base()
     try:
         sys.stdout.flush()
